@@ -177,13 +177,13 @@ Proof.
       if if has_prefix s_HTTP hb
          then http_resp_ok (if negb found && negb (o_fix_syntax o) then hb ++ CRLF else if negb found && o_fix_syntax o then hb ++ CRLF else hb)
          else http_req_ok (if negb found && negb (o_fix_syntax o) then hb ++ CRLF else if negb found && o_fix_syntax o then hb ++ CRLF else hb)
-      then Ok (if negb found && o_fix_syntax o then m_set tbl uni_lower n_content_length (itoa (cl_value tbl uni_lower hs + 2)) hs else hs,
+      then Ok (if negb found && o_fix_syntax o then m_set tbl uni_lower n_content_length (itoa (wrap64 (cl_value tbl uni_lower hs + 2))) hs else hs,
                mkblk (if has_prefix s_HTTP hb then BHttpResp else BHttpReq)
                      (if negb found && o_fix_syntax o then hb ++ CRLF else hb) (skipn (length hb) content),
                feed bd ((if negb found && o_fix_syntax o then hb ++ CRLF else hb) ++ skipn (length hb) content),
                Some (feed pd (skipn (length hb) content))) fnd1
       else site (o_block o) (KBlock, []) fnd1 (fun fnd2 =>
-             Ok (if negb found && o_fix_syntax o then m_set tbl uni_lower n_content_length (itoa (cl_value tbl uni_lower hs + 2)) hs else hs,
+             Ok (if negb found && o_fix_syntax o then m_set tbl uni_lower n_content_length (itoa (wrap64 (cl_value tbl uni_lower hs + 2))) hs else hs,
                  mkblk (if has_prefix s_HTTP hb then BHttpResp else BHttpReq)
                        (if negb found && o_fix_syntax o then hb ++ CRLF else hb) (skipn (length hb) content),
                  feed bd ((if negb found && o_fix_syntax o then hb ++ CRLF else hb) ++ skipn (length hb) content),
